@@ -58,7 +58,7 @@ func Load(repo string, patterns []string) (*World, error) {
 	if len(errs) > 0 {
 		return nil, fmt.Errorf("package errors: %s", strings.Join(errs, "; "))
 	}
-	prog, _ := ssautil.AllPackages(pkgs, ssa.InstantiateGenerics)
+	prog, _ := ssautil.AllPackages(pkgs, ssa.InstantiateGenerics|ssa.GlobalDebug)
 	prog.Build()
 	w := &World{Prog: prog, Pkgs: pkgs, Contracts: map[string]*Contract{}, RepoDir: repo, globals: map[*ssa.Global]int{}, FnByKey: map[string]*ssa.Function{}, SpecDecls: map[string]*Decl{}}
 	// contract files: *_verif.go in every module package that was loaded (including dependencies inside the module)
